@@ -351,6 +351,26 @@ def oracle(case, rec):
     if abs(score - ref) > t:
         raise Violation(f'score {score!r} differs from the sample-only model {ref!r} (quota {q}, floor(r*n)={final}, '
                         f'#values={len(values)}, n={n}, r={r!r}, c={c})', kind='C04/sample-model')
+    # history: the caller refills one target buffer in place (same address, same n and ratio, new contents) - the sample is taken
+    # from the contents of THIS call
+    if 2 <= n <= 20000:
+        X2 = X[::-1].copy()
+        if not np.array_equal(X2, X):
+            rec.cls('target-buffer-refilled-in-place')
+            X2l = X2.tolist()
+            try:
+                bb = wa.call(rid, [dict(base, buf='t', heap=[]), dict(base, X=X2l, buf='t', heap=[])])
+            except WorkerDied as e:
+                raise Violation(f'estimator call (refilled target buffer) did not terminate normally: {e}', kind='C04/abnormal-termination')
+            ref2 = rm.sampled_score_ref(Yl, X2l, r, c)
+            s2 = bits_to_float(bb[1])
+            if bb[0] != allbits[0]:
+                raise Violation(f'score {bits_to_float(bb[0])!r} with the target in a caller-owned buffer differs from {score!r} with a '
+                                f'fresh array of the same contents (n={n}, r={r!r}, c={c})', kind='C04/determinism')
+            if not math.isfinite(s2) or abs(s2 - ref2) > rm.tol(Y, X2):
+                raise Violation(f'after refilling the same target buffer in place with other contents (rows reversed) the score is '
+                                f'{s2!r}, the sample-only model of the NEW contents gives {ref2!r}; the previous contents scored '
+                                f'{score!r} (n={n}, r={r!r}, c={c})', kind='C04/sample-model')
     # metamorphic: alter the feature outside the sampled rows
     rows = set(rm.sample_rows(Xl, r))
     outside = [i for i in range(n) if i not in rows]
